@@ -40,7 +40,8 @@ def rename_project(p: dict, rnd: random.Random) -> dict:
 def norm(path: str, root: Path, cwd: Path) -> str:
     p = Path(path)
     if not p.is_absolute():
-        p = cwd / p
+        # relative to the working directory, or (LICENSES/ entries) to the root
+        p = cwd / p if (cwd / p).exists() or not (root / p).exists() else root / p
     p = Path(os.path.normpath(p))
     try:
         return p.relative_to(root).as_posix()
